@@ -4,6 +4,7 @@ import (
 	"go/ast"
 	"go/constant"
 	"go/types"
+	"sort"
 	"strings"
 
 	"verifcheck/an"
@@ -12,11 +13,11 @@ import (
 func init() {
 	All["C08"] = &Prop{
 		Run: c08,
-		Level: "ONE structural necessary condition of 'query answers ignore chunking, parallelism and partitioning': wherever the planner stacks an aggregate on top of a lower-level aggregate of the same calls (every call site of ForwardCallArgs), the upper level is rewritten count→sum on every path (CountToSum on the same node), and the five CountToSum implementations agree on that rewrite. Without it a count over several partitions/chunks returns the number of partial counts. " +
+		Level: "THREE structural necessary conditions of 'query answers ignore chunking, parallelism and partitioning': (R1) wherever the planner stacks an aggregate on top of a lower-level aggregate of the same calls (every call site of ForwardCallArgs), the upper level is rewritten count→sum on every path (CountToSum on the same node), and the five CountToSum implementations agree on that rewrite — without it a count over several partitions/chunks returns the number of partial counts; (R2) every test that orders a row time against a bound of a GROUP BY time() window (ProcessorOptions.Window results held in locals) is the two-sided half-open test start ≤ t < end or its negation, unless the function looks at the scan direction — a one-sided test merges or splits windows at chunk seams for one of the two directions; (R3) the whole-chunk pass-through of the sorted merges is taken only for an input whose row cursor is 0 and into an empty output chunk — otherwise rows are emitted twice depending on the batch size. " +
 			"NOT decided (no sound static argument in reach relates two executions): independence from chunk size and parallelism of every operator, fill/limit/offset semantics, merge order, descending = reversed ascending, conformance with the documented semantics.",
 		Assumptions: commonAssumptions,
-		Technique:   "static analysis: must-follow pairing on go/cfg over all call sites, sibling agreement of the rewrite bodies",
-		Rules:       "C08.R1",
+		Technique:   "static analysis: must-follow pairing on go/cfg over all call sites, sibling agreement of the rewrite bodies, predicate-shape (truth-table) and guard (control-dependence) rules over every Window()/pass-through site of the executor",
+		Rules:       "C08.R1 R2 R3",
 	}
 	All["C18"] = &Prop{
 		Run: c18,
@@ -118,6 +119,246 @@ func c08(c *an.Ctx) {
 	}
 	r2.AddSites(k)
 	r2.Floor(5, "CountToSum implementations")
+	c08Window(c)
+	c08PassThrough(c)
+}
+
+// c08PassThrough — C08.R3.  The sorted k-way merges consume their inputs ROW by
+// row (cursor Item.Index); their fast path hands a whole input chunk to the
+// output (Item.ChunkBuf.CopyTo) and moves the cursor to the end.  That is the
+// same answer as the row-wise path only if no row of the chunk was consumed yet
+// and the output chunk is empty — otherwise rows already emitted are emitted
+// again, and whether that happens depends on the batch size.  Rule: every
+// whole-chunk copy of an Item's buffer is control-dependent on Item.Index == 0
+// and on the output being empty.
+func c08PassThrough(c *an.Ctx) {
+	const X = "engine/executor"
+	r := c.Rule("C08.R3", "K-GUARD", "whole-chunk pass-through of a merge input only when its row cursor is at 0 and the output chunk is empty")
+	chunkBuf := obj(r, X+":Item.ChunkBuf")
+	if chunkBuf == nil {
+		return
+	}
+	n := 0
+	for _, d := range c.P.AllDecls() {
+		if !an.InPkg(d, X) {
+			continue
+		}
+		f := c.P.Fn(d)
+		if f == nil {
+			continue
+		}
+		copies := f.Find(an.MNode("Item.ChunkBuf.CopyTo(out)", func(g *an.Fn, m ast.Node) bool {
+			ce, ok := m.(*ast.CallExpr)
+			if !ok || len(ce.Args) != 1 {
+				return false
+			}
+			sel, ok := ce.Fun.(*ast.SelectorExpr)
+			if !ok || sel.Sel.Name != "CopyTo" {
+				return false
+			}
+			inner, ok := ast.Unparen(sel.X).(*ast.SelectorExpr)
+			return ok && g.Info.Uses[inner.Sel] == chunkBuf
+		}))
+		for _, s := range copies.List {
+			n++
+			ce := s.Node.(*ast.CallExpr)
+			item := f.Canon(ast.Unparen(ce.Fun.(*ast.SelectorExpr).X).(*ast.SelectorExpr).X)
+			out := f.Canon(ce.Args[0])
+			one := &an.Sites{F: f, Desc: item + ".ChunkBuf.CopyTo(" + out + ")", List: []an.Site{s}}
+			f.Guarded(r, one, "pass-through only for an unconsumed input ("+item+".Index == 0)", an.AtomIs("0=="+item+".Index", true))
+			f.Guarded(r, one, "pass-through only into an empty output ("+out+".Len() == 0)", an.AtomIs("0=="+out+".Len()", true))
+		}
+	}
+	r.AddSites(n)
+	r.Floor(2, "whole-chunk copies of a merge input")
+}
+
+// c08Window — C08.R2.  A GROUP BY time() window is the half-open interval
+// [start,end) returned by ProcessorOptions.Window.  Operators decide with it
+// whether a row of the NEXT chunk (or the next row) still belongs to the window
+// of the previous one; rows arrive ascending or descending, so a membership test
+// that looks at one bound only is right for one direction and merges/splits
+// windows at chunk seams for the other.  Rule: a boolean expression that orders
+// some time t against one bound of a Window() call held in local variables also
+// orders the same t against the other bound of the same call, and the two
+// comparisons combine to `start ≤ t ∧ t < end` or its negation.  A one-sided test
+// is accepted only in a function that reads the query direction (Ascending).
+func c08Window(c *an.Ctx) {
+	const X = "engine/executor"
+	r := c.Rule("C08.R2", "K-PREDSHAPE", "window membership of a row is the two-sided half-open test start ≤ t < end of one Window() call")
+	win := obj(r, queryPkg+":ProcessorOptions.Window")
+	if win == nil {
+		return
+	}
+	n := 0
+	for _, d := range c.P.AllDecls() {
+		if !an.InPkg(d, X) {
+			continue
+		}
+		f := c.P.Fn(d)
+		if f == nil {
+			continue
+		}
+		// local variables assigned from result #0 / #1 of a Window call, paired per assignment
+		type pair struct{ s, e types.Object }
+		var pairs []pair
+		ast.Inspect(f.Body, func(m ast.Node) bool {
+			as, ok := m.(*ast.AssignStmt)
+			if !ok || len(as.Lhs) != 2 || len(as.Rhs) != 1 {
+				return true
+			}
+			ce, ok := ast.Unparen(as.Rhs[0]).(*ast.CallExpr)
+			if !ok || an.Callee(f.Info, ce) != win {
+				return true
+			}
+			lv := func(e ast.Expr) types.Object {
+				id, ok := e.(*ast.Ident)
+				if !ok || id.Name == "_" {
+					return nil
+				}
+				if o := f.Info.Defs[id]; o != nil {
+					return o
+				}
+				return f.Info.Uses[id]
+			}
+			pairs = append(pairs, pair{lv(as.Lhs[0]), lv(as.Lhs[1])})
+			return true
+		})
+		if len(pairs) == 0 {
+			continue
+		}
+		role := func(o types.Object) (grp int, isEnd bool, ok bool) {
+			for i, p := range pairs {
+				if o != nil && p.s == o {
+					return i, false, true
+				}
+				if o != nil && p.e == o {
+					return i, true, true
+				}
+			}
+			return 0, false, false
+		}
+		// groups that share a variable (branches assigning the same pair) are one group
+		canonGrp := func(g int) int {
+			for i := 0; i <= g; i++ {
+				if (pairs[i].s != nil && pairs[i].s == pairs[g].s) || (pairs[i].e != nil && pairs[i].e == pairs[g].e) {
+					return i
+				}
+			}
+			return g
+		}
+		readsDirection := false
+		ast.Inspect(f.Body, func(m ast.Node) bool {
+			if sel, ok := m.(*ast.SelectorExpr); ok && (sel.Sel.Name == "Ascending" || sel.Sel.Name == "IsAscending") {
+				readsDirection = true
+			}
+			return true
+		})
+		// maximal boolean trees
+		var trees []ast.Expr
+		var visit func(m ast.Node) bool
+		visit = func(m ast.Node) bool {
+			e, ok := m.(ast.Expr)
+			if !ok {
+				return true
+			}
+			if tv, ok := f.Info.Types[e]; ok && tv.Type != nil {
+				if b, isB := tv.Type.Underlying().(*types.Basic); isB && b.Info()&types.IsBoolean != 0 {
+					switch x := ast.Unparen(e).(type) {
+					case *ast.BinaryExpr, *ast.UnaryExpr:
+						_ = x
+						trees = append(trees, e)
+						return false
+					}
+				}
+			}
+			return true
+		}
+		ast.Inspect(f.Body, visit)
+		for _, tree := range trees {
+			type cmp struct {
+				t     string
+				bound string
+				isEnd bool
+				grp   int
+			}
+			var cmps []cmp
+			ast.Inspect(tree, func(m ast.Node) bool {
+				be, ok := m.(*ast.BinaryExpr)
+				if !ok {
+					return true
+				}
+				switch be.Op.String() {
+				case "<", "<=", ">", ">=":
+				default:
+					return true
+				}
+				for _, side := range [][2]ast.Expr{{be.X, be.Y}, {be.Y, be.X}} {
+					id, ok := ast.Unparen(side[0]).(*ast.Ident)
+					if !ok {
+						continue
+					}
+					if g, isEnd, ok := role(f.Info.Uses[id]); ok {
+						if oid, ok2 := ast.Unparen(side[1]).(*ast.Ident); ok2 {
+							if _, _, other := role(f.Info.Uses[oid]); other {
+								continue // bound against bound: not a membership test
+							}
+						}
+						cmps = append(cmps, cmp{f.Canon(side[1]), f.Canon(side[0]), isEnd, canonGrp(g)})
+					}
+				}
+				return true
+			})
+			if len(cmps) == 0 {
+				continue
+			}
+			n++
+			for _, a := range cmps {
+				both := false
+				for _, b := range cmps {
+					if b.t == a.t && b.grp == a.grp && b.isEnd != a.isEnd {
+						both = true
+					}
+				}
+				if both || readsDirection {
+					continue
+				}
+				side, other := "end", "start"
+				if !a.isEnd {
+					side, other = "start", "end"
+				}
+				r.Fail(d.Name()+": one-sided window test", c.P.Pos(tree.Pos()), "%s orders %s against the %s of a Window() interval but not against its %s, and never looks at the query direction: for the other scan direction (ascending/descending) every row passes the test, so windows are merged or split depending on where chunk boundaries fall", d.Name(), a.t, side, other)
+				break
+			}
+			// shape of a pure two-atom membership test: start ≤ t ∧ t < end, or its negation
+			if len(cmps) == 2 && cmps[0].t == cmps[1].t && cmps[0].grp == cmps[1].grp && cmps[0].isEnd != cmps[1].isEnd {
+				atoms := map[string]bool{}
+				got := f.FormulaOf(tree, atoms)
+				if len(atoms) == 2 {
+					sc, ec := cmps[0], cmps[1]
+					if sc.isEnd {
+						sc, ec = ec, sc
+					}
+					keyS, keyE := sc.t+"<"+sc.bound, ec.t+"<"+ec.bound
+					okShape := false
+					if atoms[keyS] && atoms[keyE] {
+						for _, want := range []string{"!`" + keyS + "` & `" + keyE + "`", "`" + keyS + "` | !`" + keyE + "`"} {
+							if wf, err := an.ParseFormula(want, atoms); err == nil {
+								if eq, _ := an.Equivalent(got, wf, atoms); eq {
+									okShape = true
+								}
+							}
+						}
+					}
+					if !okShape {
+						r.Fail(d.Name()+": window test shape", c.P.Pos(tree.Pos()), "%s combines the two bounds of a Window() interval in a way that is neither start ≤ t ∧ t < end nor its negation (atoms %v, expected over %s and %s)", d.Name(), keysOfMap(atoms), keyS, keyE)
+					}
+				}
+			}
+		}
+	}
+	r.AddSites(n)
+	r.Floor(4, "boolean expressions ordering a time against Window() bounds held in locals")
 }
 
 var c18Exceptions = map[string]string{}
@@ -234,4 +475,13 @@ func c18(c *an.Ctx) {
 	r.AddSites(n)
 	r.Floor(40, "transpiler function table entries")
 	_ = types.Universe
+}
+
+func keysOfMap(m map[string]bool) []string {
+	var out []string
+	for k := range m {
+		out = append(out, k)
+	}
+	sort.Strings(out)
+	return out
 }
